@@ -102,11 +102,11 @@ def crashes(execs):
 
 
 # ================================================================================================
-def run_trace_check(pid, tier_, execs, relax, oracle=False, level='exploration', rule='', assumptions=(), mc=None, extra_cov=None):
+def run_trace_check(pid, tier_, execs, relax, oracle=False, level='exploration', rule='', assumptions=(), mc=None, extra_cov=None, batch_lines=4000):
     t0 = time.time()
     wd = workdir(pid)
     run_executions(execs, wd)
-    nlines, rej = validate_executions(execs, wd, relax=relax, oracle=oracle)
+    nlines, rej = validate_executions(execs, wd, relax=relax, oracle=oracle, batch_lines=batch_lines if not oracle else 500)
     nviol = report(pid, rej, crashes(execs))
     cov = dict(evaluations=sum(len(e.events) for e in execs), distinct_nontrivial=distinct_nontrivial(execs),
                rule=rule, samples=sample_of(execs), traces_validated_against_impl=len(execs),
@@ -244,7 +244,141 @@ def c17(tier_):
         extra_cov=lambda ex: dict(c_calls=sum(1 for e in ex for ev in e.events if ev.get('api') == 'c'), distinct_c_entry_points=len(set((ev.get('op'), ev.get('fn'), ev.get('sig'), (ev.get('f') or [None])[-1] if ev.get('op') == 'eval' else None) for e in ex for ev in e.events if ev.get('api') == 'c'))))
 
 
-CHECKS = {'C10': c10, 'C11': c11, 'C12': c12, 'C14': c14, 'C15': c15, 'C16': c16, 'C17': c17}
+# ================================================================================================
+# value properties: the specification's numeric oracle judges every logged evaluator result
+# ================================================================================================
+HEAT = [e['name'] for e in CATALOG if e['name'].startswith('heateq')]
+EULER = ['euler_1d', 'euler_2d', 'euler_3d', 'euler_transient_1d', 'euler_transient_2d', 'euler_transient_3d', 'axisymmetric_euler', 'axi_euler_transient']
+NS = ['navierstokes_2d_compressible', 'navierstokes_3d_compressible', 'axisymmetric_navierstokes_compressible', 'axi_cns_transient', 'navierstokes_4d_compressible_powerlaw']
+GRADSOLS = ['euler_1d', 'euler_2d', 'euler_3d', 'navierstokes_2d_compressible', 'navierstokes_3d_compressible', 'navierstokes_4d_compressible_powerlaw']
+ALLVAL = HEAT + EULER + NS + ['laplace_2d', 'burgers_equation', 'rans_sa', 'fans_sa_transient_free_shear', 'fans_sa_steady_wall_bounded', 'euler_chem_1d', 'sod_1d', 'cp_normal']
+VAL_ASSUME = COMMON_ASSUME + [
+    'spec/MasaReal.java implements the real arithmetic of MasaReal.tla (45 digits); cross-checked by MC_Oracle',
+    'admissible inputs: parameters drawn independently as exact doubles in the boxes of checks/gen.py (rho, p, T, nu_sa > 0; L != 0; Gamma > 1; sod mu = (Gamma-1)/(Gamma+1); euler_chem R_N2 = R_N/2; points in a bounded box, r > 0, Sod points 1e-3 away from wave fronts)',
+    'tolerance |got - exact| <= 2^K u_p mag with mag the sum of absolute values of the terms of the governing operator (MasaReal.tla); K = 14 (identity), K = 5 (C09 accuracy)']
+
+
+def sources_and_exact(sol):
+    return [tuple(c) for c in CAT[sol]['caps'] if not c[0].startswith('grad_')]
+
+
+def grads(sol):
+    return [tuple(c) for c in CAT[sol]['caps'] if c[0].startswith('grad_')]
+
+
+def known_value_keys(pid):
+    return [[k['match']['sol'], k['match']['fn']] for k in known_for(pid) if 'sol' in k.get('match', {}) and 'fn' in k.get('match', {})]
+
+
+def value_check(pid, tier_, plan, kbits=14, rule='', extra_execs=(), all_known=False):
+    """plan: list of (solution, evaluators or None, nassign, npts)."""
+    t0 = time.time()
+    rng = random.Random(seed())
+    execs = [gen.gen_values(rng, sol, nassign=na, npts=npt, evaluators=evs) for sol, evs, na, npt in plan] + list(extra_execs)
+    wd = workdir(pid)
+    run_executions(execs, wd)
+    kn = [k for k in KNOWN if k.get('status') == 'known' and 'sol' in k.get('match', {}) and (all_known or k.get('property') == pid)]
+    keys = [[k['match']['sol'], k['match']['fn']] for k in kn]
+    kf = os.path.join(wd, 'known.json')
+    json.dump(keys, open(kf, 'w'))
+    nlines, rej = validate_executions(execs, wd, relax=('live', 'memo'), oracle=True, batch_lines=450,
+                                      extra_env={'KNOWN': kf, 'KBITS': str(kbits)})
+    nviol = report(pid, rej, crashes(execs))
+    # known findings of this property: confirm each still reproduces against the property's own operator
+    for k in kn:
+        if k.get('property') != pid:
+            continue
+        sol, fn = k['match']['sol'], k['match']['fn']
+        evs = [c for c in map(tuple, CAT[sol]['caps']) if c[0] == fn]
+        ex = [gen.gen_values(random.Random(seed() + 7), sol, nassign=2, npts=2, evaluators=evs, precs=('d',))]
+        run_executions(ex, wd)
+        json.dump([], open(kf + '.none', 'w'))
+        _, rj = validate_executions(ex, wd, relax=('live', 'memo'), oracle=True, extra_env={'KNOWN': kf + '.none', 'KBITS': str(kbits)}, max_rejections=1)
+        if any(x.reason == 'value' for x in rj):
+            print('KNOWN-FINDING: property=%s %s' % (pid, k['what']))
+        else:
+            print('note: known finding %s no longer reproduces on this tree' % k['id'])
+    nev = sum(1 for e in execs for ev in e.events if ev.get('op') == 'eval')
+    dist = len(set((e.label, ev.get('p'), ev.get('fn'), ev.get('sig'), json.dumps(ev.get('a')), ev.get('di'), json.dumps(ev.get('v'))) for e in execs for ev in e.events if ev.get('op') in ('eval',)))
+    cov = dict(evaluations=nev, distinct_nontrivial=dist,
+               rule=rule + ' distinct_nontrivial = distinct (solution, precision, evaluator, point, direction) tuples evaluated with a non-default random parameter assignment and judged by the oracle',
+               samples=sample_of(execs, n=2, maxlines=8), traces_validated_against_impl=len(execs), trace_lines_accepted=nlines,
+               rejections=len(rej), solutions=sorted(set(p[0] for p in plan)), tolerance_bits=kbits, known_deviations_tolerated=keys)
+    write_evidence(pid, tier_, 'exploration', cov, VAL_ASSUME, time.time() - t0, nviol)
+    shutil.rmtree(wd, ignore_errors=True)
+    return 1 if nviol else 0
+
+
+def reps(tier_, q, t):
+    return q if tier_ == 'quick' else t
+
+
+def c01(tier_):
+    na, npt = reps(tier_, (3, 3), (60, 6))
+    return value_check('C01', tier_, [(s, sources_and_exact(s), na, npt) for s in HEAT],
+        rule='12 heat solutions x {double, long double}: every parameter drawn independently, points in [-2,2]^d x [0,2]; source_t judged against rho cp(T) T_t - div(k(T) grad T) of the documented cosine field, exact_t against the field.')
+
+
+def c02(tier_):
+    na, npt = reps(tier_, (3, 2), (40, 5))
+    return value_check('C02', tier_, [(s, sources_and_exact(s), na, npt) for s in EULER],
+        rule='8 Euler-family solutions x 2 precisions: mass/momentum/energy sources judged against the residual of the conservation laws (cylindrical form with 1/r terms for the axisymmetric pair) on the documented fields; exact fields against the documented forms.')
+
+
+def c03(tier_):
+    na, npt = reps(tier_, (2, 2), (25, 4))
+    return value_check('C03', tier_, [(s, sources_and_exact(s), na, npt) for s in NS],
+        rule='5 viscous solutions x 2 precisions (power-law: all ~200 parameters non-zero): sources judged against the compressible Navier-Stokes residual (Newtonian stress, Fourier flux, ideal gas; power-law transport; cylindrical form). Evaluators listed as known findings are judged against their recorded variant system instead.')
+
+
+def c04(tier_):
+    na, npt = reps(tier_, (4, 4), (80, 8))
+    return value_check('C04', tier_, [(s, None, na, npt) for s in ('laplace_2d', 'burgers_equation')],
+        rule='laplace_2d: source_f vs Laplacian of the documented phi; burgers_equation: source_u/v(x,y,t) vs u_t+(uu)_x+(uv)_y, v_t+(uv)_x+(vv)_y of the documented fields, exact fields in both arities.')
+
+
+def c05(tier_):
+    na, npt = reps(tier_, (3, 3), (40, 6))
+    return value_check('C05', tier_, [(s, None, na, npt) for s in ('rans_sa', 'fans_sa_transient_free_shear', 'fans_sa_steady_wall_bounded')],
+        rule='rans_sa, fans_sa_transient_free_shear (2- and 3-argument forms), fans_sa_steady_wall_bounded x 2 precisions: sources judged against the RANS/FANS equations closed with Spalart-Allmaras (f_v1 differentiated, Johnson-Allmaras limiter, wall destruction, conservative diffusion, c_b2 term); time amplitudes non-zero.')
+
+
+def c06(tier_):
+    na, npt = reps(tier_, (4, 4), (80, 8))
+    return value_check('C06', tier_, [('euler_chem_1d', None, na, npt)],
+        rule='euler_chem_1d x 2 precisions with callbacks K_eq(T) from a named family (constant, Arrhenius-like, quadratic): species sources vs d(rho_s u)/dx -/+ production, momentum and energy vs the two-species thermally perfect Euler residual.')
+
+
+def c07(tier_):
+    na, npt = reps(tier_, (3, 4), (40, 8))
+    return value_check('C07', tier_, [(s, grads(s) + [c for c in sources_and_exact(s) if c[0].startswith('exact_')], na, npt) for s in GRADSOLS],
+        rule='every grad_* evaluator of euler_1d/2d/3d, navierstokes_2d/3d, power-law x 2 precisions, direction index in -1..dimension+2: component i vs the i-th partial derivative of the documented exact field (jet), out-of-range index vs the error value (-1; NaN for the power-law solution).')
+
+
+def c08(tier_):
+    na, npt = reps(tier_, (5, 5), (100, 10))
+    return value_check('C08', tier_, [('sod_1d', [('source_rho', 'SS'), ('source_rho_u', 'SS')], na, npt), ('cp_normal', None, na, npt)],
+        rule='sod_1d: density and momentum vs the exact Riemann solution (p* by 150 bisections at 45 digits; rarefaction, contact, shock) for random Gamma, x, t>0, points within 1e-3 of a front not judged; cp_normal: prior/posterior/likelihood/loglikelihood/moments 0..20/posterior mean and variance vs the conjugate normal formulas for random m, sigma, sigma_d and data vectors of length 1..8.')
+
+
+def c09(tier_):
+    na, npt = reps(tier_, (2, 2), (15, 4))
+    plan = [(s, None, na, npt) for s in ALLVAL if s != 'sod_1d'] + [('sod_1d', [('source_rho', 'SS'), ('source_rho_u', 'SS')], na, npt)]
+    return value_check('C09', tier_, plan, kbits=5, all_known=True,
+        rule='all solutions of C01-C08, each assignment and point evaluated in both precisions with identical (exactly representable) inputs; each result must be finite and within 2^5 u_p mag of the 45-digit oracle value (u_d = 2^-53, u_ld = 2^-64), hence double and long double agree to double precision and long double is not limited to double accuracy.')
+
+
+def c20(tier_):
+    t0 = time.time()
+    rng = random.Random(seed())
+    na, npt = reps(tier_, (2, 3), (20, 6))
+    execs = [gen.gen_reduction(rng, *r, npts=npt, nassign=na) for r in gen.reductions()]
+    return run_trace_check('C20', tier_, execs, relax=('live', 'memo'), oracle=True, level='exploration',
+        rule='22 reductions (3D->2D Euler and NS with z amplitudes and w zero; NS->Euler with mu=k=0; transient->steady Euler; unsteady->steady heat; variable->constant heat), the two solutions on two handles of one process, shared parameters random, both precisions; the trace specification history variable pairs demands that the two values of a pair agree within 2^15 u_p mag and both are judged by the oracle. distinct = distinct (call, arguments) shapes',
+        assumptions=VAL_ASSUME, extra_cov=lambda ex: dict(pairs=sum(1 for e in ex for ev in e.events if ev.get('pair')) // 2))
+
+
+CHECKS = {'C01': c01, 'C02': c02, 'C03': c03, 'C04': c04, 'C05': c05, 'C06': c06, 'C07': c07, 'C08': c08, 'C09': c09, 'C20': c20, 'C10': c10, 'C11': c11, 'C12': c12, 'C14': c14, 'C15': c15, 'C16': c16, 'C17': c17}
 
 
 def main():
